@@ -108,13 +108,12 @@ I_setall(i, pairs, ctor) ==
             IF IsErr(w[1]) THEN w ELSE I_setall(w[2], Tail(pairs), ctor)
 
 (* the object given as positional argument, seen as a key/value sequence *)
+RECURSIVE DFill(_, _)
+DFill(d, q) == IF q = <<>> THEN d
+               ELSE DFill(DSet(d, Key(Head(q)), Head(q)[3]), Tail(q))
 ISrc(form, pairs) ==
   CASE form \in {"dict", "odict"} -> DictOf(pairs)
-    [] form = "ncdict" ->         \* a NocaseDict filled by item assignment
-         LET RECURSIVE fill(_, _)
-             fill(d, q) == IF q = <<>> THEN d
-                           ELSE fill(DSet(d, Key(Head(q)), Head(q)[3]), Tail(q))
-         IN DItems(fill(<<>>, pairs))
+    [] form = "ncdict" -> DItems(DFill(<<>>, pairs))  \* filled by d[k] = v
     [] OTHER -> pairs
 Mapping(form) == form \in {"dict", "odict", "ncdict"}
 
@@ -128,9 +127,8 @@ I_update(i, e, ctor) ==
        ELSE I_setall(a[2], e.kw, ctor)
 
 I_new(i, e) ==      \* NocaseDict(...) / NocaseDict.fromkeys(...): new object
-  LET fresh == [data |-> <<>>, unn |-> PinnedCtorNone, snap |-> <<>>]
-      u == I_update(IF PinnedCtorNone THEN fresh
-                    ELSE [fresh EXCEPT !.unn = FALSE], e, TRUE) IN
+  LET fresh == [data |-> <<>>, unn |-> FALSE, snap |-> <<>>]
+      u == I_update(fresh, e, TRUE) IN
   IF IsErr(u[1]) THEN <<u[1], i>>               \* no object; old one stays
   ELSE <<RNone, [data |-> u[2].data, unn |-> FALSE, snap |-> DItems(u[2].data)]>>
 
